@@ -5,8 +5,8 @@ Require Import Verif.lib.PyLite Verif.gen.ReachGen Verif.lib.Reach.
 Local Open Scope Z_scope.
 
 (* ------------------------------------------------------------------ facts read off the translated source *)
-Lemma swissnum_bits : 128 <= NAMEBITS.
-Proof. unfold NAMEBITS. lia. Qed.
+Lemma swissnum_bits : 128 <= NAMEBITS /\ swissnum_source = OsEntropy.
+Proof. split; [unfold NAMEBITS; lia | reflexivity]. Qed.
 
 Lemma remote_prefix_is : remote_prefix = "remote_"%string.
 Proof. reflexivity. Qed.
